@@ -260,6 +260,7 @@ func propC17(t *rapid.T) {
 		defs = append(defs, msgDef{id, part, append([]string(nil), shards[:n]...)})
 	}
 	reloads, removes, maxReports, reloadBetween := 0, 0, 0, false
+	foreign := false
 	steps := rapid.IntRange(1, 20).Draw(t, "steps")
 	for s := 0; s < steps; s++ {
 		switch rapid.SampledFrom([]string{"report", "report", "report", "report", "remove", "reload"}).Draw(t, "action") {
@@ -270,6 +271,14 @@ func propC17(t *rapid.T) {
 			var rep []string
 			for len(rep) < k && len(rep) < len(d.target) {
 				c := rapid.SampledFrom(d.target).Draw(t, "shard")
+				// rarely a report names a shard outside the message's target set (another collection's shard, or a shard the
+				// target list no longer has): the union then never equals the target set - "ready exactly when ... equals"
+				if rapid.IntRange(0, 11).Draw(t, "foreignShard") == 0 {
+					c = rapid.SampledFrom(append(append([]string(nil), shards...), "src-dml_9_1v9")).Draw(t, "anyShard")
+					if !contains(d.target, c) {
+						foreign = true
+					}
+				}
 				dup := false
 				for _, x := range rep {
 					dup = dup || x == c
@@ -345,10 +354,20 @@ func propC17(t *rapid.T) {
 	sc.ClassIf(removes > 0, "remove-existing")
 	sc.ClassIf(maxReports >= 3, "three-or-more-reports")
 	sc.ClassIf(reloadBetween, "reload-between-reports")
+	sc.ClassIf(foreign, "report-from-a-shard-outside-the-target-set")
 	sc.NonTrivial(maxReports >= 3 || reloadBetween)
 	sc.Fingerprint(w.hist)
 	sc.Sample(map[string]any{"history": w.hist})
 	sc.Done()
+}
+
+func contains(l []string, x string) bool {
+	for _, e := range l {
+		if e == x {
+			return true
+		}
+	}
+	return false
 }
 
 func TestC17(t *testing.T) { rapid.Check(t, propC17) }
